@@ -29,6 +29,12 @@ type msg struct {
 
 const exitHang = 3
 
+// BetweenCases, if set, runs at the start of every worker process and before every
+// betweenEvery-th case of a shard.
+var BetweenCases func()
+
+const betweenEvery = 2039
+
 // WorkerMain runs shard `shard` of `n` of check id, starting at (startSpace,startIndex).
 // only>=0 runs exactly that one case of startSpace.
 func WorkerMain(id, tier string, shard, n int, startSpace string, startIndex int64, only bool, careful bool, verbose bool, skip map[string]bool, window int64) int {
@@ -78,6 +84,12 @@ func WorkerMain(id, tier string, shard, n int, startSpace string, startIndex int
 		}
 	}()
 
+	// objects that belong to no case are created and customised before anything else runs and again
+	// every betweenEvery-th case of the shard (checks/decoy.go); deterministic in the case index
+	if BetweenCases != nil && !ck.LateNeighbour {
+		BetweenCases()
+		stats.Counters["neighbour_rounds"]++
+	}
 	started := startSpace == ""
 	fullPrefix := only && window < 0
 	if fullPrefix {
@@ -118,6 +130,9 @@ func WorkerMain(id, tier string, shard, n int, startSpace string, startIndex int
 				ctx.index = j
 				atomic.StoreInt64(&curIndex, j)
 				atomic.AddInt64(&caseSeq, 1)
+				if BetweenCases != nil && (j/int64(n))%betweenEvery == betweenEvery-1 {
+					BetweenCases()
+				}
 				sp.Run(ctx, j)
 			}
 			if sp.Name == startSpace {
@@ -135,6 +150,9 @@ func WorkerMain(id, tier string, shard, n int, startSpace string, startIndex int
 				ctx.index = j
 				atomic.StoreInt64(&curIndex, j)
 				atomic.AddInt64(&caseSeq, 1)
+				if BetweenCases != nil && (j/int64(n))%betweenEvery == betweenEvery-1 {
+					BetweenCases()
+				}
 				sp.Run(ctx, j)
 			}
 			break
@@ -151,6 +169,10 @@ func WorkerMain(id, tier string, shard, n int, startSpace string, startIndex int
 			ctx.index = i
 			atomic.StoreInt64(&curIndex, i)
 			atomic.AddInt64(&caseSeq, 1)
+			if BetweenCases != nil && (i/int64(n))%betweenEvery == betweenEvery-1 {
+				BetweenCases()
+				stats.Counters["neighbour_rounds"]++
+			}
 			if carefulLeft > 0 {
 				carefulLeft--
 				emit(msg{T: "at", Space: sp.Name, I: i})
@@ -433,6 +455,7 @@ func RunMain(id, tier string) int {
 		cov["notes"] = agg.Notes
 	}
 	cov["workers"] = n
+	cov["hostile_neighbour_rounds"] = agg.Counters["neighbour_rounds"]
 	cov["known_findings_matched"] = len(knownLines)
 	ev := Evidence{PropertyID: id, Tier: tier, Seed: seed, Level: ck.Level, Coverage: cov, Assumptions: ck.Assume, WallS: wall, Violations: nViol}
 	if ev.Assumptions == nil {
